@@ -447,6 +447,77 @@ def recover_parameter_renames(prog, table):
     return out
 
 
+def local_fingerprints(func):
+    """{local name: sorted fingerprints of its bindings} of a function: the shape of each bound value with every variable name
+    blanked (attribute names, constants and call structure stay), so that a renamed local is recognised by what is assigned to it"""
+    class Blank(ast.NodeTransformer):
+        def visit_Name(s_, n):
+            return ast.copy_location(ast.Name(id='_', ctx=ast.Load()), n)
+
+    def fp(kind, value, pos=''):
+        return '%s%s:%s' % (kind, pos, ast.dump(Blank().visit(copy.deepcopy(value))) if value is not None else '')
+    out = {}
+    params = {a.arg for a in ast.walk(func.args) if isinstance(a, ast.arg)}
+
+    def bind(target, kind, value, pos=''):
+        if isinstance(target, ast.Name):
+            if target.id not in params:
+                out.setdefault(target.id, []).append(fp(kind, value, pos))
+        elif isinstance(target, (ast.Tuple, ast.List)):
+            for i, t in enumerate(target.elts):
+                bind(t, kind, value, '%s.%d' % (pos, i))
+        elif isinstance(target, ast.Starred):
+            bind(target.value, kind, value, pos + '*')
+    for x in ast.walk(func):
+        if isinstance(x, ast.Assign):
+            for t in x.targets:
+                bind(t, 'assign', x.value)
+        elif isinstance(x, ast.AugAssign):
+            bind(x.target, 'aug' + type(x.op).__name__, x.value)
+        elif isinstance(x, ast.AnnAssign) and x.value is not None:
+            bind(x.target, 'assign', x.value)
+        elif isinstance(x, (ast.For, ast.comprehension)):
+            bind(x.target, 'for', x.iter)
+        elif isinstance(x, ast.withitem) and x.optional_vars is not None:
+            bind(x.optional_vars, 'with', x.context_expr)
+        elif isinstance(x, ast.ExceptHandler) and x.name and x.name not in params:
+            out.setdefault(x.name, []).append(fp('except', x.type))
+        elif isinstance(x, ast.NamedExpr):
+            bind(x.target, 'assign', x.value)
+    return {k: sorted(v) for k, v in out.items()}
+
+
+def recover_local_renames(prog, table):
+    """A local variable of a reference function that is gone, while a new local with exactly the same bindings (same shapes of the
+    bound values) has appeared in that function: renamed back.  Only the rules that go by the names of locals need this (C20 names
+    key material by identifier); value terms never see local names."""
+    ref = table.get('locals', {})
+    out = []
+    for q, fi in sorted(prog.functions.items()):
+        r = ref.get(q)
+        if not r or not isinstance(fi.node, ast.FunctionDef):
+            continue
+        cur = local_fingerprints(fi.node)
+        used = {x.id for x in ast.walk(fi.node) if isinstance(x, ast.Name)} | {a.arg for a in ast.walk(fi.node) if isinstance(a, ast.arg)}
+        missing = [m for m in r if m not in used]
+        new = [n for n in cur if n not in r]
+        mapping = {}
+        for m in missing:
+            cands = [n for n in new if cur[n] == r[m]]
+            if len(cands) == 1:
+                mapping.setdefault(cands[0], []).append(m)
+        mapping = {n: ms[0] for n, ms in mapping.items() if len(ms) == 1}
+        if not mapping:
+            continue
+        for x in ast.walk(fi.node):
+            if isinstance(x, ast.Name) and x.id in mapping:
+                x.id = mapping[x.id]
+            elif isinstance(x, ast.ExceptHandler) and x.name in mapping:
+                x.name = mapping[x.name]
+        out.append({'function': q, 'locals': dict(mapping)})
+    return out
+
+
 def krefs_sets(krefs, _cache={}):
     k = id(krefs)
     if k not in _cache:
@@ -1416,7 +1487,7 @@ class _Accessors(ast.NodeTransformer):
         return node
 
 
-def erase_new_records(prog, known):
+def erase_new_records(prog, known, attr_reads=None):
     """A record type that is not in the reference tree (`class NetlinkMessage(NamedTuple)` introduced for a tuple that used to be
     returned bare) is erased again: `R(a, b, c)` is the tuple `(a, b, c)` and `x.field` - where x is known to hold an R - is `x[i]`.
     What holds an R is inferred without types: a construction, the result of a function all of whose returns are Rs (or lists only
@@ -1563,6 +1634,17 @@ def erase_new_records(prog, known):
                 if isinstance(x, ast.Attribute) and x.attr in ('_replace', '_asdict'):
                     t = typ(x.value, env)
                     recs.pop(t if isinstance(t, str) else None, None)
+    # all or nothing: a field read on a value this inference cannot type (and that is not an attribute the reference tree reads on
+    # its own objects) would be left behind on a tuple - such a record stays a record (the value terms read records as they are)
+    ref_attrs = {a for v in (attr_reads or {}).values() for a in v}
+    for fns in funcs.values():
+        for fn in fns:
+            env = local_env(fn)
+            for x in ast.walk(fn):
+                if isinstance(x, ast.Attribute) and isinstance(x.ctx, ast.Load) and x.attr not in ref_attrs:
+                    t = typ(x.value, env)
+                    for name in [k for k, v in recs.items() if x.attr in v[1] and t != k]:
+                        recs.pop(name, None)
     if not recs:
         return []
     # ---- rewrite
@@ -2084,6 +2166,7 @@ class Inliner:
         self.report['recovered_parameters'] = recover_parameter_renames(prog, tbl)
         if self.report['recovered_parameters']:
             prog.reindex()
+        self.report['recovered_locals'] = recover_local_renames(prog, tbl)
         self.report['dispatch_tables'] = {}
         for q, fi in prog.functions.items():
             if isinstance(fi.node, ast.FunctionDef):
@@ -2105,7 +2188,7 @@ class Inliner:
                 k = unroll_literal_loops(fi.node)
                 if k:
                     self.report.setdefault('unrolled_literal_loops', {})[q] = k
-        self.report['erased_records'] = erase_new_records(prog, known_constants())
+        self.report['erased_records'] = erase_new_records(prog, known_constants(), tbl.get('attr_reads'))
         if self.report['erased_records']:
             prog.reindex()
         self.report['inlined_constants'] = inline_new_constants(prog, known_constants())
